@@ -13,18 +13,21 @@ RULE = (
     "equals the reference trace, no message executes between that checkpoint and the 'paused' state, "
     "RE.deferred_pause_requested is True at every message in between and False at the first message after the pause, resume() "
     "replays nothing (whole trace == reference trace, no Msg object twice); no later checkpoint => the call returns normally, "
-    "the flag is still True afterwards and False at the first message of the next plan; "
+    "the flag is still True afterwards and False at the first message of the next plan; a deferred pause followed by a suspension (released by the environment) at every later position: the flag stays True through the suspension and its rewind and the engine pauses at the next checkpoint; "
     "non-trivial = the request was accepted while the engine was running"
 )
 ASSUMPTIONS = _x1.X1_ASSUMPTIONS
 
 D = [("dpause",)]
+DS = [("dpause",), ("suspend", "none"), ("@once", "dpause", "suspend")]  # one deferred pause and one suspension, either order
 SECOND = [("dpause",), ("pause",), ("abort",), ("suspend", "none")]
 SPECS = {
-    "quick": [spec("cpspace", D, bound=1, s=s) for s in (1, 2, 3, 4)] + [spec("cpspace", D, bound=1, s=7, tail=0)] + [spec(k, D, bound=1) for k in ("count2", "scan2", "tiny")],
+    "quick": [spec("cpspace", D, bound=1, s=s) for s in (1, 2, 3, 4)] + [spec("cpspace", D, bound=1, s=7, tail=0)] + [spec(k, D, bound=1) for k in ("count2", "scan2", "tiny")]
+    + [spec("cpspace", DS, bound=2, s=2, n=4, tail=1)],
     "thorough": [spec("cpspace", D, bound=1, s=s, n=8, tail=t) for s in (1, 2, 3, 4, 9) for t in (0, 2)]
     + [spec(k, D, bound=1, a=a) for k in ("count2", "scan2", "tiny", "grid22s", "nested") for a in (0, 1)]
-    + [spec("cpspace", SECOND, bound=2, s=2, n=4, tail=1)],
+    + [spec("cpspace", SECOND, bound=2, s=2, n=4, tail=1)]
+    + [spec(k, DS, bound=2, **kw) for k, kw in (("cpspace", {"s": 3, "n": 6, "tail": 2}), ("count2", {}), ("tiny", {"a": 1}))],
 }
 
 
@@ -33,6 +36,8 @@ def oracle(scn, obs, ref, schedule):
     if obs.outcome != "ok":
         return out
     inj = schedule.get("injections", ())
+    if len(inj) == 2 and inj[0][1][0] == "dpause" and inj[1][1][0] == "suspend" and not schedule.get("decisions") and not schedule.get("faults"):
+        return _with_suspension(scn, obs)
     if len(inj) != 1 or inj[0][1][0] != "dpause" or schedule.get("decisions") or schedule.get("faults"):
         return out  # the precise claims are made for a single deferred pause; mixed schedules are C07/C08's business
     tl = obs.timeline
@@ -100,6 +105,44 @@ def oracle(scn, obs, ref, schedule):
             out.append(("pending-flag-leaks-into-next-plan", "deferred_pause_requested still True at the first message of the next plan"))
         if any(t[0] == "state" and t[1] in ("pausing", "paused") for t in tl[probe_start:]):
             out.append(("stale-deferred-pause-fired-in-next-plan", "the next plan was paused by the previous call's deferred request"))
+    return out
+
+
+def _with_suspension(scn, obs):
+    """A deferred pause, then a suspension (released by the environment): the request survives the suspension's rewind."""
+    out = []
+    tl = obs.timeline
+    helper = obs.helpers[0] if obs.helpers else None
+    if helper is None or helper[4] is not None:
+        return out
+    if any(r != "yes" for _k, _i, r in engine.interruptions(obs)):
+        return out
+    i_inj = next(i for i, t in enumerate(tl) if t[0] == "inject")
+    if tl[i_inj][3] != "running":
+        return out
+    dpr = obs.extra["dpr"]
+    probe_start = next((i for i, t in enumerate(tl) if t[0] == "call" and t[1] == "probe"), len(tl))
+    after = [(i, t[1]) for i, t in enumerate(tl[:probe_start]) if t[0] == "msg" and i > i_inj]
+    acked = next((n for n, (i, k) in enumerate(after) if dpr[k]), None)
+    c0 = obs.calls[0]
+    if acked is None:
+        return out
+    cpn = next((n for n in range(acked, len(after)) if obs.msgs[after[n][1]].command == "checkpoint"), None)
+    if cpn is None:
+        if c0["exc"] is None and c0["state_after"] == "idle" and not c0.get("dpr_after"):
+            out.append(("pending-flag-lost", "deferred pause requested after the last checkpoint: flag is False after the call returned"))
+        return out
+    gap = [after[n][1] for n in range(acked, cpn + 1) if not dpr[after[n][1]]]
+    if gap:
+        out.append(("flag-dropped-before-checkpoint", f"deferred_pause_requested False at message #{gap[0]} ({obs.msgs[gap[0]].command}) before the next checkpoint (a suspension came in between)"))
+    i_cp = after[cpn][0]
+    i_paused = next((i for i in range(i_cp, len(tl)) if tl[i][0] == "state" and tl[i][1] == "paused"), None)
+    nxt = next((i for i in range(i_cp + 1, len(tl)) if tl[i][0] == "msg"), None)
+    if i_paused is None or (nxt is not None and nxt < i_paused):
+        # a suspension that takes effect exactly at this checkpoint runs its helper first; the pause then happens at the
+        # checkpoint... which has been consumed: accept only if the helper started right here
+        if not (nxt is not None and obs.msgs[tl[nxt][1]].command == "_start_suspender"):
+            out.append(("no-pause-at-checkpoint", f"deferred pause pending, then a suspension; at the next checkpoint (message #{after[cpn][1]}) the engine did not pause"))
     return out
 
 
